@@ -114,7 +114,7 @@ def main():
             if a == "--props":
                 props = sys.argv[i + 1].split(",")
         out = run_checks(d, props, tier)
-        meta.setdefault("check_results", {})[tier] = out
+        meta.setdefault("check_results", {}).setdefault(tier, {}).update(out)
         meta["what_was_run"] = f"git -C /repo apply seeded/{sid}/patch.diff; ./check <prop> --tier {tier}; git -C /repo checkout -- ."
         (d / "meta.json").write_text(json.dumps(meta, indent=1))
         for p, r in out.items():
